@@ -51,8 +51,8 @@ class Scenario:
                     region.circuit.send(message)
                 elif op == "drop":
                     region.circuit.drop_message(message)
-            except RuntimeError:
-                self.refused += 1
+            except Exception:      # noqa -- a refused re-send / re-drop; the circuit raises RuntimeError, but its message
+                self.refused += 1  # formats the Message, which for an unparseable body raises the parse error instead
         if beh == "mutate":
             _mutate(message)
         if cp and copy_ is not None:
